@@ -32,6 +32,10 @@ def akai_subject(variant):
         # name the merged pair is written under)
         files.insert(0, {"name": "PAD2", "n": 700, "chain": [14], "seq": 8})
         files.append({"name": "PAD1", "n": 800, "chain": [15], "seq": 9})
+        # one name byte away from a sibling's name WITH ONE MORE BLANK (a damaged name can equal a sibling up to the length of a
+        # run of blanks, trailing dots, letter case ... -- whatever a later "tidying" step of a path removes)
+        files.append({"name": "TOM A", "n": 600, "chain": [16], "seq": 10})
+        files.append({"name": "TOM 1A", "n": 650, "chain": [17], "seq": 11})
     spec = {"parts": [{"vols": [{"name": "VOL", "dir": [3], "files": files}]}]}
     model = A.model_from_spec(spec)
     img, layout = A.build_akai(model)
@@ -230,7 +234,7 @@ class Check(CheckBase):
     id = "C14"
     level = "fault_enumeration"
     title = "A damaged directory entry affects only that entry"
-    rule = ("AKAI volumes with 3, 4, 7 and 9 files (two names one byte apart at the ends of the directory; in the 9-file volume two names one byte away from the STEM of the L/R pair, one in front of the pair and one behind it, 15-value menu in both tiers) (fragmented sample with timed and held loops late in its audio, L/R pair, program, a file filling its last sector): every "
+    rule = ("AKAI volumes with 3, 4, 7 and 11 files (two names one byte apart at the ends of the directory; in the 11-file volume two names one byte away from the STEM of the L/R pair, one in front of the pair and one behind it, and a name one byte away from a sibling's name with a longer run of blanks, 15-value menu in both tiers) (fragmented sample with timed and held loops late in its audio, L/R pair, program, a file filling its last sector): every "
             "entry x each of its 24 bytes x value menu (15 values quick / all 256 thorough); Roland performance with 3 samples "
             "(permuted chain, reverse mode behind a leading-cluster offset, release-end mode): every byte of each sample's 32-byte directory record and 48-byte "
             "parameter record x the same menus (thorough: all 256 for sample 1, menu for the others); thorough also all byte "
@@ -257,8 +261,8 @@ class Check(CheckBase):
                         for p1, p2 in itertools.combinations(range(fo, fo + fw), 2):
                             for v1, v2 in itertools.product(MENU, repeat=2):
                                 cases.append({"subject": key, "entry": e, "bytes": [[p1, v1], [p2, v2]]})
-        # the 9-file volume (entries one byte away from the pair's stem): every entry x every byte x the 15-value menu in both tiers
-        for e in range(9):
+        # the 11-file volume (entries one byte away from the pair's stem, and from a sibling up to a run of blanks): every entry x every byte x the 15-value menu in both tiers
+        for e in range(11):
             for pos in range(24):
                 for v in MENU:
                     cases.append({"subject": "akai3", "entry": e, "bytes": [[pos, v]]})
